@@ -18,21 +18,30 @@ import (
 )
 
 type HarnessCfg struct {
-	Name         string                    `json:"name"`
-	Func         string                    `json:"func"` // pkgpath.Func
-	Unwind       int                       `json:"unwind"`
-	NoPanic      bool                      `json:"-"`
-	AllowPanic   bool                      `json:"allow_panic"`
-	MustReach    []string                  `json:"must_reach"`
-	TierParams   map[string]map[string]int `json:"params"`
-	Tiers        []string                  `json:"tiers"`
-	Stubs        map[string]string         `json:"stubs"`
-	Replay       string                    `json:"replay"` // native | none | driver:<TestName>
-	MapOrderDesc bool                      `json:"map_order_desc"`
-	MaxPaths     int                       `json:"max_paths"`
-	LockEvents   bool                      `json:"lock_events"`
-	Doc          string                    `json:"doc"`
-	Params       map[string]int            `json:"-"`
+	Name           string                    `json:"name"`
+	Func           string                    `json:"func"` // pkgpath.Func
+	Unwind         int                       `json:"unwind"`
+	NoPanic        bool                      `json:"-"`
+	AllowPanic     bool                      `json:"allow_panic"`
+	MustReach      []string                  `json:"must_reach"`
+	TierParams     map[string]map[string]int `json:"params"`
+	Tiers          []string                  `json:"tiers"`
+	Stubs          map[string]string         `json:"stubs"`
+	Replay         string                    `json:"replay"` // native | none | driver:<TestName>
+	MapOrderDesc   bool                      `json:"map_order_desc"`
+	MaxPaths       int                       `json:"max_paths"`
+	LockEvents     bool                      `json:"lock_events"`
+	WitnessSamples int                       `json:"witness_samples"`
+	Witness        []string                  `json:"witness"` // tags of deliberately falsifiable assertions (translator validation)
+	Doc            string                    `json:"doc"`
+	Params         map[string]int            `json:"-"`
+}
+
+func witnessSamples(h *HarnessCfg) int {
+	if h.WitnessSamples > 0 {
+		return h.WitnessSamples
+	}
+	return 4
 }
 
 type CheckCfg struct {
@@ -49,28 +58,28 @@ type CheckCfg struct {
 }
 
 type Engine struct {
-	prog      *ssa.Program
-	pkgs      []*packages.Package
-	modPath   string
-	cfg       *CheckCfg
-	stubs     map[string]*ssa.Function
-	isStubFn  map[*ssa.Function]bool
-	noop      []string
-	initPkgs  map[string]bool
-	maxInstrs int64
-	maxElems  int
-	noMerge   bool
-	mu        sync.Mutex
-	pdoms     map[*ssa.Function]*pdomInfo
-	msCache   map[string]*ssa.Function
-	timeoutMs int
-	simpCache sync.Map
-	tmpl      *Path
-	tmplMu    sync.Mutex
-	forkSites map[string]int
+	prog       *ssa.Program
+	pkgs       []*packages.Package
+	modPath    string
+	cfg        *CheckCfg
+	stubs      map[string]*ssa.Function
+	isStubFn   map[*ssa.Function]bool
+	noop       []string
+	initPkgs   map[string]bool
+	maxInstrs  int64
+	maxElems   int
+	noMerge    bool
+	mu         sync.Mutex
+	pdoms      map[*ssa.Function]*pdomInfo
+	msCache    map[string]*ssa.Function
+	timeoutMs  int
+	simpCache  sync.Map
+	tmpl       *Path
+	tmplMu     sync.Mutex
+	forkSites  map[string]int
 	noTemplate bool
-	verbose   bool
-	solverLog string
+	verbose    bool
+	solverLog  string
 }
 
 var repoDir = func() string {
@@ -324,6 +333,7 @@ func (e *Engine) explore(h *HarnessCfg, workers int) *HarnessResult {
 		maxPaths = 2_000_000
 	}
 	seenViol := map[string]bool{}
+	nWit := map[string]int{}
 	var wg sync.WaitGroup
 	if e.verbose {
 		go func() {
@@ -421,6 +431,13 @@ func (e *Engine) explore(h *HarnessCfg, workers int) *HarnessResult {
 				}
 				for _, v := range p.violations {
 					k := v.Kind + "|" + v.Tag + "|" + v.Site
+					if v.Kind == "assert" && contains(h.Witness, v.Tag) {
+						// translator-validation witnesses: keep models from several different paths
+						nWit[k]++
+						if nWit[k] > 1 && nWit[k] <= witnessSamples(h) {
+							res.Violations = append(res.Violations, v)
+						}
+					}
 					if !seenViol[k] {
 						seenViol[k] = true
 						res.Violations = append(res.Violations, v)
